@@ -31,6 +31,18 @@ def _solver(hyps, goal, mbqi, timeout_ms, seed=None, relevancy=None):
 def discharge(ob):
     """-> dict(name, kind, status, backend, ms, model?) ; status in
     discharged / refuted / undecided / vacuous."""
+    global Z3_MS
+    own = getattr(ob, "budget_ms", None)
+    if own:
+        saved, Z3_MS = Z3_MS, max(Z3_MS, int(own))
+        try:
+            return _discharge(ob)
+        finally:
+            Z3_MS = saved
+    return _discharge(ob)
+
+
+def _discharge(ob):
     t0 = time.time()
     rec = {"name": ob.name, "kind": ob.kind, "function": ob.func}
     if ob.expect == "sat":  # cover: the path must be feasible
